@@ -233,8 +233,22 @@ def run(ctx):
         good = all(D.show(fields[k]) == "power_levels::default_power_level()" for k in want50) and all(int_of(fields[k]) == 0 for k in want0) and \
             D.show(fields["events"]) == "BTreeMap::new()" and D.show(fields["users"]) == "BTreeMap::new()"
     ctx.check(good, rule3, f"{rule3}:content-new", w.where(f), bad_msg=f"{[D.show(p.ret)[:300] for p in ps]}")
-    for k, v in spec.DEFAULT_LEVELS.items():
-        pass
+    # what a MISSING key is read as (serde `default` attributes of the two content types): four levels default to 50 (ban, kick, redact,
+    # state_default), three to 0 (events_default, invite, users_default), as in new() above. Counted per derived visit_map.
+    n_vis = 0
+    for g in w.all_fns():
+        m_ = re.search(r"<impl serde_core::de::Deserialize<'de> for ruma_events::room::power_levels::((?:Redacted)?RoomPowerLevelsEventContent)>::deserialize::__Visitor.*::visit_map$", g["path"])
+        if not m_ or "body" not in g:
+            continue
+        n_vis += 1
+        names = [M.callee_name(c_) for _, c_ in M.calls(g["body"])]
+        n50 = sum(1 for n_ in names if n_ == "ruma_common::power_levels::default_power_level")
+        n0 = sum(1 for n_ in names if n_ == "<js_int::int::Int as core::default::Default>::default")
+        ctx.check(n50 == 4 and n0 == 3, rule3, f"{rule3}:serde:{m_.group(1)}", w.where(g),
+                  bad_msg=f"{m_.group(1)}: a missing level is read as 50 for {n50} fields and as 0 for {n0} fields; the specification has 4 levels defaulting to 50 "
+                          f"(ban, kick, redact, state_default) and 3 defaulting to 0 (events_default, invite, users_default) - the helpers then judge an event that "
+                          f"omits the key by another level than the authorization rules")
+    ctx.floor("derived deserializers of the power-levels content types", n_vis, 2)
     f = w.fn(f"<{P}RoomPowerLevels as core::convert::From<{P}RoomPowerLevelsEventContent>>::from")
     ps = dex.paths(f, [D.sym("c")])
     good = len(ps) == 1 and ps[0].ret is not None and ps[0].ret[0] == "adt" and all(D.show(v) == f"c.{k}" for k, v in ps[0].ret[3]) and len(ps[0].ret[3]) == 10
